@@ -44,3 +44,29 @@ claim("C02",
       "(implementation-only relational cases, exact numbers, tolerance 4*EPS).",
       TB + AX_R + ", Classical_Prop.classic (Coquelicot).",
       "Coq/Coquelicot proof of section-level ODE facts + exact correspondence + sampled relational cases", "5.2")
+SIMNOTE = (" Run-loop model tied to Scenario.run by exact correspondence on recorded runs of all eight strategies; the strategy-"
+           "dependent clauses are evaluated by Python predicates on every step of those runs (sampled, labelled so in the evidence).")
+claim("C04",
+      "Theorems for ANY strategy (abstract in the run-loop model): a step outside +-(limit+EPS) at a connector or station is "
+      "never reported as valid; the run stops at the first invalid step and is flagged aborted; current limit <= rating and "
+      "= min(rating, signalled limit). PARTIAL: 'no strategy breaks the limit when fixed load and generation respect it' is "
+      "sampled on recorded exact runs (known findings: forecast-based planners)." + SIMNOTE,
+      TB + AX_R + ", Classical_Prop.classic.", "Coq proof of the run-loop monitor + exact correspondence + sampled predicates", "5.4")
+claim("C05",
+      "Theorems about util.clamp_power on R (non-negative, within station headroom and offered power, respects minimum "
+      "powers, monotone) and the station-limit clause of the run-loop monitor. PARTIAL: station/vehicle-curve/V2G clauses per "
+      "strategy are sampled on recorded exact runs (known finding: two (dis)charge calls per step exceed the vehicle curve)." + SIMNOTE,
+      TB + AX_R + ", Classical_Prop.classic.", "Coq proof of kernel lemmas + exact correspondence + sampled predicates", "5.5")
+claim("C06",
+      "Theorems: reported connector power = max(-rating, sum of all component powers) (= the plain sum when >= -rating); "
+      "self-discharge formula, only lowers the SoC, never below zero; per call energy balance from C01. PARTIAL: per-step "
+      "vehicle/battery energy bookkeeping of each strategy is sampled on recorded exact runs (known finding: charge and "
+      "discharge of one vehicle within a step)." + SIMNOTE,
+      TB + AX_R + ", Classical_Prop.classic.", "Coq proof (run-loop sum, losses) + exact correspondence + sampled predicates", "5.6")
+claim("C17",
+      "Theorems on the run-loop model for any strategy and number type (axiom-free): reported steps <= configured; no error => "
+      "exactly the configured number; an error or failed check is latched: stop at the first such step, flagged aborted, that "
+      "step is the last row; equal row shapes. PARTIAL: bounded time of strategy loops and report generation are runtime facts, "
+      "exercised by fault injection on recorded runs." + SIMNOTE,
+      "Trusted: Coq kernel + VM; harness recorder and fault injection (class-level patch of the concrete strategy's step). No axioms.",
+      "Coq proof of the run-loop model + exact correspondence + fault injection", "5.17")
